@@ -101,6 +101,12 @@ func vh15Corpus() [][]vhsrvReq {
 		// ... and on the renamed entry itself
 		{v, at, w(0, 1, "d1"), w(1, 2, "f1"), {T: "Trenameat", N: []uint64{0, 0}, S: vhsrvH("d1", "d2"), FaultAns: pan, FaultCall: 1},
 			{T: "Tclunk", N: []uint64{2}}, w(0, 3, "d2"), {T: "Tclunk", N: []uint64{1}}},
+		// Close panics inside a rename: d1 is held only by its child f1 (fid 1 clunked), fid 3 is another fid of d1;
+		// renaming f1 out of d1 drops d1's last reference -> Close(d1) panics.  Afterwards fid 2 (the moved file)
+		// must still be usable: clone, getattr, remove
+		{v, at, w(0, 1, "d1"), w(1, 2, "f1"), {T: "Tclunk", N: []uint64{1}}, w(0, 3, "d1"),
+			{T: "Trenameat", N: []uint64{3, 0}, S: vhsrvH("f1", "f2"), FaultAns: pan, FaultMeth: vhsrvMClose + 1},
+			{T: "Tgetattr", N: []uint64{2, 1}}, w(2, 4), {T: "Tclunk", N: []uint64{4}}, {T: "Tremove", N: []uint64{2}}},
 		// Close panics while a replaced binding is released; the fid table stays usable
 		{v, at, w(0, 1, "f1"), {T: "Twalk", N: []uint64{0, 1}, S: vhsrvH("f2"), FaultAns: pan, FaultCall: 3}, {T: "Tgetattr", N: []uint64{1, 1}}, {T: "Tclunk", N: []uint64{1}}, {T: "Tclunk", N: []uint64{0}}},
 		// UnlinkAt / Create / Open panic; then the same directory is used again (its write lock must be free)
